@@ -219,8 +219,6 @@ def check_case(fmt, spec, tmpdir, counters):
         ref = np.asarray(ent[0], dtype=float)
         src_tol = ent[2] if ent[1] == "abs" else ent[2] * np.abs(ref)
         for target in targets:
-            if target == mod.FORMAT:
-                continue
             out = os.path.join(tmpdir, OBJ.filename(target, "c04q"))
             with warnings.catch_warnings(record=True):
                 warnings.simplefilter("always")
@@ -241,6 +239,12 @@ def check_case(fmt, spec, tmpdir, counters):
             tol = src_tol + abs_extra + (rel + c03.UNIT_SLACK) * np.abs(ref)
             if got.shape != ref.shape or (np.abs(got - ref) > tol).any():
                 problems.append(Problem(f"C04/convert/{target}/{attr}", f"{fmt} -> {target}: {attr} changed: {c03.describe(ref, got)}"))
+    # the object in memory must still hold atomic units after having been written to other formats
+    if ntriple > 0:
+        for d in c03.compare_expected(fmt, dims, data):
+            quantity = d["bucket"].split("/", 2)[2]
+            if f"C04/{fmt}/{quantity}" not in bad:
+                problems.append(Problem(f"C04/after_dump/{quantity}", f"loaded from {fmt}, after dumping to other formats: {d['message']}"))
     counters["triples"] = counters.get("triples", 0) + ntriple
     labels += [f"quantity:{DIMENSIONAL[p]}" for p in dims]
     nonzero = any(np.any(np.asarray(v[0], dtype=float) != 0) for v in dims.values())
